@@ -19,6 +19,7 @@ import (
 	"github.com/protobom/protobom/pkg/sbom"
 
 	"mcverif/engine"
+	"mcverif/gen"
 	"mcverif/jsonfault"
 	"mcverif/props/c05"
 	"mcverif/rw"
@@ -241,6 +242,17 @@ func stringValues(c *engine.Ctx, name string, root *jsonfault.Node, paths []json
 	c.Bound(name+"-string-derived", fmt.Sprintf("%d near-misses of the members' own valid values (separator-aligned prefixes and suffixes, short prefixes, doubled, extended, case-flipped)", nd))
 	c.Group(name + "-string-values")
 	n := 0
+	// the adversarial contents plus the vocabulary of the library's own sources: the words, prefixes and separators the
+	// parsers look for (quick tier: the structural literals alone and embedded in filler; thorough: the whole vocabulary in all
+	// case variants)
+	menu := append([]string{}, stringMenu...)
+	if c.Thorough() {
+		menu = append(menu, gen.Vocabulary()...)
+	} else {
+		for _, tk := range gen.StructuralTokens() {
+			menu = append(menu, tk, "x"+tk+"y", tk+"x")
+		}
+	}
 	for pi := range paths {
 		par := root
 		for _, i := range paths[pi][:len(paths[pi])-1] {
@@ -251,10 +263,10 @@ func stringValues(c *engine.Ctx, name string, root *jsonfault.Node, paths []json
 			continue
 		}
 		n++
-		for vi := range stringMenu {
+		for vi := range menu {
 			pi, vi := pi, vi
-			c.Case(func() any { return map[string]string{"base": name, "path": labels[pi], "string": stringMenu[vi]} }, func(t *engine.T) *engine.Violation {
-				rb, _ := json.Marshal(stringMenu[vi])
+			c.Case(func() any { return map[string]string{"base": name, "path": labels[pi], "string": menu[vi]} }, func(t *engine.T) *engine.Violation {
+				rb, _ := json.Marshal(menu[vi])
 				raw := string(rb)
 				f := jsonfault.Fault{Name: "string", Apply: func(p *jsonfault.Node, i int) { p.Elems[i] = &jsonfault.Node{Raw: raw} }}
 				in, _ := jsonfault.Mutate(root, []jsonfault.Path{paths[pi]}, []jsonfault.Fault{f})
@@ -263,7 +275,7 @@ func stringValues(c *engine.Ctx, name string, root *jsonfault.Node, paths []json
 			})
 		}
 	}
-	c.Bound(name+"-string-values", fmt.Sprintf("%d string-valued members x %d adversarial contents", n, len(stringMenu)))
+	c.Bound(name+"-string-values", fmt.Sprintf("%d string-valued members x (%d adversarial contents + %d values from the vocabulary of the library's sources)", n, len(stringMenu), len(menu)-len(stringMenu)))
 }
 
 // growth: arrays of k copies of their first element; the parsed document must not grow faster than
